@@ -10,7 +10,7 @@ CLAIMED = {
    "Seeded search over client histories x router/link schedules x router configurations with the real Router::run_inner; every Forward drained by a client is attributed (subset construction over possible assignments) to the next expected element of one of its subscriptions in a reference model fed with the observed acceptance order; completeness checked at forced quiescence points; retention gaps excused only against the broker's own log head. Sampling, not proof.",
    ROUTER_NOTE, "deterministic simulation with seeded scheduler + reference model"),
  "C03": ("routersim", "exploration", "DESIGN.md 5.1, 6/C03",
-   "Seeded search over histories with takeover, stale events, persistent sessions, shared groups, unknown-filter/multi-filter unsubscribes, wills; every router step under catch_unwind, no step may return an error, well-behaved connections may not be closed. Sampling, not proof.",
+   "Seeded search over histories with takeover, stale events, persistent sessions, shared groups, unknown-filter/multi-filter unsubscribes, wills; every router step under catch_unwind, no step may return an error, well-behaved connections may not be closed; a run that does not return (router blocked or spinning inside a step) is reported by a monitor thread as halt:run_does_not_return with a seed-only replay file. Sampling, not proof.",
    ROUTER_NOTE, "deterministic simulation with fault injection (stale events, drops, takeover), panic oracle"),
  "C06": ("routersim", "exploration", "DESIGN.md 5.1, 6/C06",
    "Every DeviceAck drained from a connection is compared with a per-connection ledger of replies owed in request order (PUBACK/PUBREC/PUBCOMP/SUBACK codes/UNSUBACK/PINGRESP, PUBRELs separately), under seeded schedules that put requests into every pause state. Sampling, not proof.",
@@ -18,8 +18,8 @@ CLAIMED = {
  "C09": ("routersim", "exploration", "DESIGN.md 5.1, 6/C09",
    "Window invariants (<=100 awaiting ack, non-zero unique ids) checked on every forward from the client's side under backlogs up to several hundred messages and all ack pacings; no-lost-wakeup: at quiescence (acks and drains only, no new stimulus) the whole backlog has been delivered. Sampling, not proof.",
    ROUTER_NOTE, "deterministic simulation with seeded scheduler, invariants + bounded liveness at quiescence"),
- "C05": ("streamsim", "exploration", "DESIGN.md 5.4, 6/C05",
-   "Seeded search over byte streams (valid frames from both crates' encoders, mutations, random bytes, fixed-header boundary cases) x chunking / Pending / EOF schedules over an in-memory AsyncRead for the four decoders; the stream wrapper (Framed, Network::read+readv) must yield exactly what repeated one-shot decoding of the delivered prefix yields, with independent fixed-header parsing for the consumed-length, oversize and needs-more rules. Sampling, not proof.",
+ "C05": ("streamsim+clientsim", "exploration", "DESIGN.md 5.4, 6/C05, 12.5",
+   "Seeded search over byte streams (valid frames from both crates' encoders, mutations, random bytes, fixed-header boundary cases) x chunking / Pending / EOF schedules over an in-memory AsyncRead for the four decoders; the stream wrapper (Framed, Network::read+readv) must yield exactly what repeated one-shot decoding of the delivered prefix yields, with independent fixed-header parsing for the consumed-length, oversize and needs-more rules. One run in 64 takes the oversize clause through the whole rumqttc client (clientsim): the scripted broker sends one frame above the client's incoming limit, which poll() must never surface, whatever limits the CONNACK carried. Sampling, not proof.",
    "Trusted: the harness's own fixed-header parser and in-memory transport; tokio current-thread runtime with paused clock.",
    "deterministic simulation of the transport seam (chunking, Pending, EOF) + differential oracle"),
  "C08": ("routersim", "fault_enumeration", "DESIGN.md 5.1, 6/C08",
@@ -112,7 +112,7 @@ manifest = {
    "source_commits": hook_commits,
    "add_only": True,
  },
- "engines": [{"name": e, "path": f"/verif/sim/src/engines/{e}.rs" if e in ("logsim","streamsim") else f"/verif/sim/src/engines/{e}", "serves_properties": sorted(p), "kind_free_text": "seeded deterministic simulator, single-threaded per run, 16 runs in parallel"} for e,p in sorted(engines.items())],
+ "engines": [{"name": e, "path": f"/verif/sim/src/engines/{e}.rs" if e in ("logsim","streamsim") else f"/verif/sim/src/engines/{e.split('+')[0]}", "serves_properties": sorted(p), "kind_free_text": "seeded deterministic simulator, single-threaded per run, 16 runs in parallel"} for e,p in sorted(engines.items())],
  "checks": checks,
  "not_applicable": na,
  "notes": "Exit codes: 0 held, 1 VIOLATION (with replay file), 2 harness/build error. VERIF_SEED selects the base seed (default 1). Known findings: /verif/KNOWN_FINDINGS.txt.",
